@@ -209,7 +209,7 @@ def _observe(t, it, model, case, info):
         expect_eq("nodes-preorder", got_nodes, want_nodes, "nodes() (prefix, body) sequence")
         for p, n in nodes:
             tr = impl("traverse", t.traverse, p)
-            expect_eq("nodes-equal-traverse", n, tr, f"node yielded at {tuple(p)} vs traverse")
+            expect_eq("nodes-equal-traverse", n, tr, f"node yielded at {tuple(int(x) for x in p)} vs traverse")
     has_prefix_pair = any(a != b and b.startswith(a) for a in order for b in order)
     info.label("prefix-pair", has_prefix_pair)
     info.label("empty-key-stored", b"" in model)
